@@ -41,8 +41,7 @@ def oracle(policy, actions, recs, snap):
             present = {i for i in everyone if _spawned_by(i, idx, actions, recs)}
             alive = sorted(i for i in present if i not in rec['done'])
             if alive:
-                pw = rec.get('pre_wait') or []
-                if a[0] == 'K' and '_cancel_tasks' in pw:
+                if a[0] == 'K' and rec.get('pre_sweep'):
                     key = 'c09:joiner-cancelled-while-awaiting-cancelled-members'
                 else:
                     key = 'c09:member-alive-at-join-exit'
@@ -80,7 +79,7 @@ def join_stuck(key, policy, actions, recs, snap):
     for a, rec in zip(actions, recs):
         if any(o.startswith('nb') for o in rec['obs']):
             return False, []
-        if a[0] == 'K' and '_cancel_tasks' in (rec.get('pre_wait') or []):
+        if a[0] == 'K' and rec.get('pre_sweep'):
             return False, []
     if not all(st == 'done' for st in snap['status'].values()):
         return False, []
